@@ -209,6 +209,24 @@ def gap_spectrum(draw, n):
 def hermitian_gap_matrix(draw, nmax):
     n = draw(st.integers(1, nmax))
     lam, info = draw(gap_spectrum(n))
+    if n >= 2 and draw(st.integers(0, 4)) == 0:
+        # a "canonical" vector (all ones, e_1, e_n, alternating signs) is an EXACT-to-rounding eigenvector of a
+        # NON-dominant eigenvalue: the property quantifies over every random start, so nothing may depend on the
+        # iteration happening to start at (or collapse onto) such a vector
+        kind = draw(st.sampled_from(["ones", "e1", "en", "alternating"]))
+        v0 = {"ones": np.ones(n), "e1": np.eye(n)[0], "en": np.eye(n)[-1],
+              "alternating": np.array([(-1.0) ** i for i in range(n)])}[kind]
+        v0 = v0 / np.sqrt(np.sum(v0 * v0))
+        w = np.eye(n)[0] - v0
+        Hh = np.eye(n) if not w.any() else np.eye(n) - 2.0 * np.outer(w, w) / float(w @ w)     # real reflector, first column v0
+        Uq = np.zeros((n, n, 4))
+        Uq[..., 0] = Hh
+        j = draw(st.integers(1, n - 1))
+        lam2 = np.array(lam, dtype=float).copy()
+        lam2[[0, j]] = lam2[[j, 0]]                                                             # column 0 gets a non-dominant value
+        A = gen.make_hermitian(ref.qmm(ref.scale_cols(Uq, lam2), ref.conjT(Uq)))
+        info = dict(info, special_eigenvector=kind)
+        return A, lam, info
     A = draw(gen.hermitian_with_spectrum(n, lam))
     return A, lam, info
 
